@@ -1568,8 +1568,88 @@ def check_override_writes(ck, R):
     _check_dedupe(ck, fa, exs[0], outs, R)
 
 
+def _refuses_suffixed(ck, fa: FA, names, suffix, depth=2) -> bool:
+    """Assume the parameters `names` of `fa` hold a string that ends in `suffix`: can `fa` then not finish normally?  A call of a
+    helper (resolved through the call graph) that cannot finish normally when handed such a name counts as a statement that
+    raises."""
+    from .effects import Assume
+
+    def atom(e):
+        if isinstance(e, ast.Call) and A.call_attr(e) == "endswith" and isinstance(A.call_recv(e), ast.Name) and A.call_recv(e).id in names \
+                and suffix in A.strings_in(e):
+            return True
+        if isinstance(e, ast.Compare) and len(e.ops) == 1 and isinstance(e.ops[0], (ast.Is, ast.IsNot)) and isinstance(e.left, ast.Name) and e.left.id in names \
+                and A.is_none(e.comparators[0]):
+            return isinstance(e.ops[0], ast.IsNot)   # a key that ends in the suffix is a string
+        return None
+    asm = Assume(fa, atom)
+    removed = set()
+    if depth > 0:
+        for c in fa.calls():
+            if not any(isinstance(a_, ast.Name) and a_.id in names for a_ in list(c.args) + [k.value for k in c.keywords]):
+                continue
+            cands, _how = ck.cg.resolve(c, fa.fi)
+            for callee in cands or []:
+                if callee is fa.fi or callee.node is None:
+                    continue
+                bound = _bind(c, [p_ for p_ in callee.params if p_ not in ("self", "cls")]) or {}
+                sub_names = {p_ for (p_, a_) in bound.items() if isinstance(a_, ast.Name) and a_.id in names}
+                if sub_names and _refuses_suffixed(ck, FA(ck, callee), sub_names, suffix, depth - 1):
+                    removed |= set(fa.nodes(c))
+    live = asm.reach(removed=removed)
+    return fa.cfg.exit not in live
+
+
+def check_metadata_marker_reserved(ck, R):
+    """Custom metadata of a call is kept under `<entry>.metadata.<key>`, or as the marker `<entry>.metadata.<key><suffix>` when the
+    value lives beside the data object.  A caller-chosen key that itself ends in that suffix names the marker of another key:
+    writing one erases or misreads the other, which no dictionary does.  Every storage backend that keeps metadata therefore
+    refuses such keys, in write_metadata and in read_metadata alike, so that all backends still answer alike (D43)."""
+    ck.rule(R, "metadata keys that end in the stored-with-data marker suffix are refused by every backend", 4)
+    gk = FA(ck, "storage_base.DataSourceMetadataSource._get_metadata_key")
+    # the text chosen by the stored-with-data flag: the non-empty arm of a conditional on a parameter (expression or statement)
+    sufs = set()
+    for n_ in ast.walk(gk.node):
+        if isinstance(n_, ast.IfExp) and set(A.names_in(n_.test)) & set(gk.fi.params):
+            sufs |= {x.value for x in (n_.body, n_.orelse) if isinstance(x, ast.Constant) and isinstance(x.value, str) and x.value}
+        if isinstance(n_, ast.If) and set(A.names_in(n_.test)) & set(gk.fi.params):
+            for st_ in n_.body + n_.orelse:
+                if isinstance(st_, (ast.Assign, ast.AugAssign)) and isinstance(st_.value, ast.Constant) and isinstance(st_.value.value, str) and st_.value.value:
+                    sufs.add(st_.value.value)
+    if not sufs:
+        sufs = {x for x in A.strings_in(gk.node) if x.startswith(".") and "{" not in x and len(x) > 1 and not x.endswith(".")}
+    sufs = sorted(sufs)
+    ck.need(len(sufs) == 1, "_get_metadata_key: cannot identify the stored-with-data marker suffix (%s)" % sufs)
+    suffix = sufs[0]
+    n = 0
+    for cls in storage_backend_classes(ck):
+        for mname in ("write_metadata", "read_metadata"):
+            m = cls.methods.get(mname)
+            if m is None:
+                continue
+            fa = FA(ck, m)
+            # a backend that keeps nothing (the null storage) has nothing to confuse
+            if not [st for st in fa.stmts() if not isinstance(st, (ast.Pass, ast.Return, ast.Expr)) or (isinstance(st, ast.Return) and st.value is not None and not A.is_none(st.value))
+                    or (isinstance(st, ast.Expr) and not isinstance(st.value, ast.Constant))]:
+                continue
+            kp = m.params[2] if len(m.params) > 2 else "key"
+            n += 1
+
+            ok = _refuses_suffixed(ck, fa, {kp}, suffix)
+            ck.ob(R, fa.key(None, "marker-suffix-refused"), ok, "a key ending in %r is refused" % suffix if ok else
+                  "%s.%s accepts a metadata key that ends in %r, the suffix under which the filesystem metadata source records that the value of the "
+                  "key WITHOUT the suffix lives beside the data object: on that backend writing 'log' removes the value of 'log%s', and reading "
+                  "'log' after writing only 'log%s' takes it for the marker; the memory backend keeps the two keys apart, so the backends "
+                  "disagree" % (cls.name, mname, suffix, suffix, suffix), fa.where())
+    ck.need(n >= 4, "expected write_metadata / read_metadata on at least two storing backends, found %d methods" % n)
+
+
 def check(ck):
     from .memo import check_new_memo_tables
+    ck.run(check_metadata_marker_reserved, ck, "C05.R4")
+    from .c07 import check_override_namespace
+    ck.rule("C05.R7", "caller-chosen override keys stay outside the areas the store keeps for itself (content objects, metadata tree)", 3)
+    ck.run(check_override_namespace, ck, "C05.R7")
     ck.run(check_new_memo_tables, ck, "C05.M1", ('storage_base', 'storage_filesystem', 'storage_memory'))
     cm = CacheModel(ck)
     ck.run(check_override_writes, ck, "C05.R6")
